@@ -174,7 +174,8 @@ class TlcResult:
 
 
 def tlc(module_path, cfg=None, workers=8, timeout=900, env_extra=None, simulate=None, depth=None,
-        seed=None, coverage=True, deadlock=False, heap="4g", dfs=False, extra=None, tag="x"):
+        seed=None, coverage=True, deadlock=False, heap="4g", dfs=False, extra=None, tag="x",
+        postcondition_ok=False):
     """Run TLC on module_path (absolute or relative to specs/).  Never raises on a property
     violation; raises ToolError on parse errors / timeouts."""
     if not os.path.isabs(module_path):
@@ -223,6 +224,8 @@ def tlc(module_path, cfg=None, workers=8, timeout=900, env_extra=None, simulate=
     # rc: 0 ok, 10 assumption, 11 deadlock, 12 safety violation, 13 liveness; >=75 errors
     if r.returncode not in (0, 10, 11, 12, 13):
         raise ToolError(f"TLC failed rc={r.returncode} on {mod}/{cfg}:\n" + r.stdout[-3000:])
+    if postcondition_ok and "Error: Postcondition" in r.stdout:
+        return res  # trace validation: a rejected trace is data for the caller, not a tool error
     if "Error: " in r.stdout and res.invariant_violated is None and r.returncode != 0:
         raise ToolError(f"TLC error on {mod}/{cfg}:\n" + r.stdout[-3000:])
     return res
